@@ -329,6 +329,12 @@ func runCheck(args []string) {
 		"lemma_files":              ps.Lemmas,
 		"errors":                   funcErrs,
 	}
+	if *tier == "thorough" && nViol == 0 && len(funcErrs) == 0 {
+		// must-fail self-test: every kept breaking change (seeded/, mutants/) is applied through an
+		// overlay (the working tree is not touched) and has to fail at least one obligation
+		st := runSelfTests(&ps, *root, *repo, patterns, tags, 12, kfs0)
+		cover["selftest_must_fail"] = st
+	}
 	ev := map[string]any{
 		"property_id": ps.ID,
 		"tier":        *tier,
